@@ -236,85 +236,126 @@ def rule_alias(c: Ctx) -> RuleResult:
     # (iii) preset taint in MarkdownIt.configure: values read from _PRESETS are only read, copied, or passed to callees
     #       that neither mutate nor retain them
     cfgf = p.func("main.py:MarkdownIt.configure")
-    tainted: set[str] = set()
-    changed = True
-    body_nodes = list(own_nodes(cfgf.node))
+    # The taint is followed through the helpers of the same module: a helper that returns a preset value taints the result
+    # of its calls, a helper that receives one has that parameter tainted.
+    mod_funcs = [g for g in p.all_funcs() if g.module is cfgf.module]
+    taint: dict[Func, set[str]] = {g: set() for g in mod_funcs}
+    ret_tainted: set[Func] = set()
 
-    def is_tainted_expr(e: ast.AST) -> bool:
+    def callees_in_module(g: Func, call: ast.Call) -> list[Func]:
+        cs = c.cg.site_of.get(call)
+        return [h for h in (cs.callees if cs else ()) if h in taint]
+
+    def is_tainted_expr(g: Func, e: ast.AST) -> bool:
+        tainted = taint[g]
         if isinstance(e, ast.Name):
             return e.id in tainted or e.id == "_PRESETS"
         if isinstance(e, (ast.Subscript, ast.Attribute)):
-            return is_tainted_expr(e.value)
+            return is_tainted_expr(g, e.value)
         if isinstance(e, ast.Call) and isinstance(e.func, ast.Attribute) and e.func.attr in ("get", "items", "values", "setdefault", "pop"):
-            return is_tainted_expr(e.func.value)
+            return is_tainted_expr(g, e.func.value)
+        if isinstance(e, ast.Call) and any(h in ret_tainted for h in callees_in_module(g, e)):
+            return True
+        if isinstance(e, ast.Call) and isinstance(e.func, ast.Name) and e.func.id == "cast" and len(e.args) == 2:
+            return is_tainted_expr(g, e.args[1])
         if isinstance(e, ast.BoolOp):
-            return any(is_tainted_expr(v) for v in e.values)
+            return any(is_tainted_expr(g, v) for v in e.values)
         if isinstance(e, ast.IfExp):
-            return is_tainted_expr(e.body) or is_tainted_expr(e.orelse)
+            return is_tainted_expr(g, e.body) or is_tainted_expr(g, e.orelse)
+        if isinstance(e, ast.NamedExpr):
+            return is_tainted_expr(g, e.value)
         return False
+    changed = True
     while changed:
         changed = False
-        for n in body_nodes:
-            tg, val = None, None
-            if isinstance(n, ast.Assign):
-                tg, val = n.targets, n.value
-            elif isinstance(n, ast.For):
-                tg, val = [n.target], n.iter
-            if tg is None:
-                continue
-            if is_tainted_expr(val):
-                for t in tg:
-                    for x in ast.walk(t):
-                        if isinstance(x, ast.Name) and x.id not in tainted:
-                            tainted.add(x.id)
-                            changed = True
-    if "_PRESETS" not in U(cfgf.node):
-        raise AnchorError("MarkdownIt.configure no longer reads _PRESETS")
-    # a) no effect on a tainted root
-    for e in c.eff.by_func[cfgf]:
-        root = access_path(e.obj)[-1]
-        if isinstance(root, ast.Name) and (root.id in tainted or root.id == "_PRESETS"):
-            r.add(f"configure|taint-write|{e.text}", c.where(cfgf, e.stmt), cfgf.short, e.text, "violation",
-                  "mutates an object that aliases the shared preset dictionary")
-    # b) tainted values passed to callees / stored
-    for n in body_nodes:
-        if isinstance(n, ast.Call):
-            cs = c.cg.site_of.get(n)
-            for i, a in enumerate(list(n.args) + [k.value for k in n.keywords]):
-                if not is_tainted_expr(a):
+        for g in mod_funcs:
+            for n in own_nodes(g.node):
+                tg, val = None, None
+                if isinstance(n, ast.Assign):
+                    tg, val = n.targets, n.value
+                elif isinstance(n, ast.AnnAssign) and n.value is not None:
+                    tg, val = [n.target], n.value
+                elif isinstance(n, ast.For):
+                    tg, val = [n.target], n.iter
+                elif isinstance(n, ast.NamedExpr):
+                    tg, val = [n.target], n.value
+                elif isinstance(n, ast.Return) and n.value is not None:
+                    if g not in ret_tainted and is_tainted_expr(g, n.value):
+                        ret_tainted.add(g)
+                        changed = True
+                elif isinstance(n, ast.Call):
+                    cs = c.cg.site_of.get(n)
+                    for h in callees_in_module(g, n):
+                        for pn in [x.arg for x in h.node.args.args + h.node.args.kwonlyargs]:
+                            a_ = c.eff.arg_for_param(cs, h, pn)
+                            if a_ is not None and pn not in taint[h] and is_tainted_expr(g, a_):
+                                taint[h].add(pn)
+                                changed = True
+                if tg is None:
                     continue
-                verdict, how = "discharged", ""
-                if cs is None or not cs.callees:
-                    if isinstance(n.func, ast.Name) and n.func.id in ("isinstance", "dict", "list", "len", "bool", "set", "tuple", "sorted"):
-                        how = "builtin that reads / copies"
-                    elif isinstance(n.func, ast.Attribute) and n.func.attr in ("get", "items", "keys", "values") :
-                        how = "read access"
+                if is_tainted_expr(g, val):
+                    for t in tg:
+                        if isinstance(t, (ast.Name, ast.Tuple, ast.List)):
+                            for x in ast.walk(t):
+                                if isinstance(x, ast.Name) and x.id not in taint[g]:
+                                    taint[g].add(x.id)
+                                    changed = True
+    if not any(isinstance(x, ast.Name) and x.id == "_PRESETS" for g in mod_funcs for x in own_nodes(g.node)) or not (
+            taint[cfgf] or any(isinstance(x, ast.Name) and x.id == "_PRESETS" for x in own_nodes(cfgf.node))):
+        raise AnchorError("MarkdownIt.configure no longer reads _PRESETS (neither directly nor through a helper of its module)")
+    for g in mod_funcs:
+        if not taint[g] and not any(isinstance(x, ast.Name) and x.id == "_PRESETS" for x in own_nodes(g.node)):
+            continue
+        tainted = taint[g]
+        tag = "configure" if g is cfgf else g.short
+        # a) no effect on a tainted root
+        for e in c.eff.by_func[g]:
+            root = access_path(e.obj)[-1]
+            if isinstance(root, ast.Name) and (root.id in tainted or root.id == "_PRESETS"):
+                r.add(f"{tag}|taint-write|{e.text}", c.where(g, e.stmt), g.short, e.text, "violation",
+                      "mutates an object that aliases the shared preset dictionary")
+        # b) tainted values passed to callees / stored
+        for n in own_nodes(g.node):
+            if isinstance(n, ast.Call):
+                cs = c.cg.site_of.get(n)
+                for i, a in enumerate(list(n.args) + [k.value for k in n.keywords]):
+                    if not is_tainted_expr(g, a):
+                        continue
+                    verdict, how = "discharged", ""
+                    if cs is None or not cs.callees:
+                        if isinstance(n.func, ast.Name) and n.func.id in ("isinstance", "dict", "list", "len", "bool", "set", "tuple", "sorted", "cast"):
+                            how = "builtin that reads / copies"
+                        elif isinstance(n.func, ast.Attribute) and n.func.attr in ("get", "items", "keys", "values") :
+                            how = "read access"
+                        else:
+                            verdict, how = "violation", "preset value flows into an unresolved callee"
                     else:
-                        verdict, how = "violation", "preset value flows into an unresolved callee"
-                else:
-                    for g in cs.callees:
-                        params = [x.arg for x in g.node.args.args]
-                        pname = None
-                        for pn in params:
-                            if c.eff.arg_for_param(cs, g, pn) is a:
-                                pname = pn
-                        if pname is None:
-                            verdict, how = "violation", f"cannot map the argument onto a parameter of {g.short}"
-                            break
-                        if any(w[0] == pname for w in c.eff.writes.get(g, ())):
-                            verdict, how = "violation", f"{g.short} mutates its parameter {pname}, which aliases the shared preset"
-                            break
-                        esc = _escapes(c, g, pname)
-                        if esc:
-                            verdict, how = "violation", f"{g.short} retains its parameter {pname} uncopied ({esc}); the instance would alias the shared preset"
-                            break
-                        how = f"{g.short} only reads / copies parameter {pname}"
-                r.add(f"configure|taint-arg|{alpha(cfgf, n)[:80]}|{i}", c.where(cfgf, n), cfgf.short, U(n)[:70], verdict, how)
-        if isinstance(n, ast.Assign):
-            for t in n.targets:
-                if isinstance(t, (ast.Attribute, ast.Subscript)) and is_tainted_expr(n.value):
-                    r.add(f"configure|taint-store|{U(t)}", c.where(cfgf, n), cfgf.short, U(n)[:70], "violation",
-                          "stores an alias of the shared preset into the instance")
+                        for h in cs.callees:
+                            params = [x.arg for x in h.node.args.args]
+                            pname = None
+                            for pn in params:
+                                if c.eff.arg_for_param(cs, h, pn) is a:
+                                    pname = pn
+                            if pname is None:
+                                verdict, how = "violation", f"cannot map the argument onto a parameter of {h.short}"
+                                break
+                            if h in taint:
+                                how = f"{h.short} is a helper of the same module: its parameter {pname} is followed as a preset alias"
+                                continue
+                            if any(w[0] == pname for w in c.eff.writes.get(h, ())):
+                                verdict, how = "violation", f"{h.short} mutates its parameter {pname}, which aliases the shared preset"
+                                break
+                            esc = _escapes(c, h, pname)
+                            if esc:
+                                verdict, how = "violation", f"{h.short} retains its parameter {pname} uncopied ({esc}); the instance would alias the shared preset"
+                                break
+                            how = f"{h.short} only reads / copies parameter {pname}"
+                    r.add(f"{tag}|taint-arg|{alpha(g, n)[:80]}|{i}", c.where(g, n), g.short, U(n)[:70], verdict, how)
+            if isinstance(n, ast.Assign):
+                for t in n.targets:
+                    if isinstance(t, (ast.Attribute, ast.Subscript)) and is_tainted_expr(g, n.value):
+                        r.add(f"{tag}|taint-store|{U(t)}", c.where(g, n), g.short, U(n)[:70], "violation",
+                              "stores an alias of the shared preset into the instance")
     # c) OptionsDict.__init__ copies its argument; make() of each preset returns a fresh object
     od = p.func("utils.py:OptionsDict.__init__")
     esc = _escapes(c, od, od.node.args.args[1].arg)
